@@ -198,6 +198,9 @@ def make_cases(ctx):
         if ver == (3, 4) and k == "rsa":
             yield base + "-pkcs1_13", dict(site=site, ver=ver, key=k, kx=kx,
                                            role=role, cls="pkcs1_13")
+        if site == "pha":
+            yield base + "-badfin", dict(site=site, ver=ver, key=k, kx=kx,
+                                         role=role, cls="pha_bad_finished")
     for ver in pair.VERSIONS[:4]:
         for what in ("honest", "wrong_password", "wrong_user", "B_zero",
                      "A_zero", "A_N", "A_2N", "A_kN", "B_N", "B_2N"):
@@ -305,7 +308,20 @@ def run_proof(ctx, cid, P):
         if not install_unoffered(p, fl, P, holder):
             ctx.count("unoffered_not_applicable")
             return
-    res = run_pair(p, fl, site)
+    before_pha = None
+    if cls == "pha_bad_finished":
+        # Certificate and CertificateVerify are honest; the Finished that
+        # closes the post-handshake authentication is wrong
+        def before_pha(pp):
+            def rwf(i, t, msg, raw):
+                if t == 20:
+                    holder["bad_finished"] = True
+                    b = bytearray(raw)
+                    b[-1] ^= 1
+                    return [adv.Raw(22, bytes(b))]
+                return None
+            adv.Deviant(pp.c, rwf)
+    res = run_pair(p, fl, site, before_pha)
     tc, ts, extra = res
     ctx.ev()
     ctx.count("proof_runs")
@@ -317,8 +333,10 @@ def run_proof(ctx, cid, P):
         ident = sess.serverCertChain if role == "server" else \
             sess.clientCertChain
     if site == "pha":
+        # the session object outlives a failed post-handshake exchange:
+        # a chain recorded there counts whether or not the call returned
         vt_done = extra.get("pha_done", False)
-        completed = vt_done and ident is not None
+        completed = ident is not None and (vt_done or cls != "honest")
     else:
         completed = vt.status == "done" and ident is not None and \
             ident.getNumCerts() > 0
@@ -329,6 +347,9 @@ def run_proof(ctx, cid, P):
          "proxy_calls": px.calls, "corrupted": px.corrupted,
          "extra": {a: str(b)[:100] for a, b in extra.items()}}
     honest_like = cls == "honest"
+    if cls == "pha_bad_finished" and not holder.get("bad_finished"):
+        ctx.count("corruption_not_reached")
+        return
     if cls == "pkcs1_13" and not holder.get("relabelled"):
         ctx.count("corruption_not_reached")
         return
@@ -430,7 +451,7 @@ def install_unoffered(p, fl, P, holder):
     return True
 
 
-def run_pair(p, fl, site):
+def run_pair(p, fl, site, before_pha=None):
     extra = {}
     if site != "pha":
         tc, ts = p.run(client_gen_with(fl, p.c) if fl.client_kw else
@@ -442,6 +463,8 @@ def run_pair(p, fl, site):
     if tc.status != "done" or ts.status != "done":
         return tc, ts, extra
     before = p.s.session.clientCertChain
+    if before_pha is not None:
+        before_pha(p)
 
     def sprog():
         for r in p.s.request_post_handshake_auth():
